@@ -69,6 +69,9 @@ var redirects = map[string]string{
 	"(*net/http.Client).Do":                                  "verifHTTPDo",
 	"github.com/Workiva/frugal/compiler/parser.ParseFrugal":  "verifParseFrugal",
 	"github.com/Workiva/frugal/compiler/parser.ParseReader":  "verifParseReader",
+	"os.Getwd": "verifGetwd",
+	"github.com/Workiva/frugal/compiler.exists":         "verifExists",
+	"github.com/Workiva/frugal/compiler.generateFrugal": "verifGenerateFrugal",
 	"os.Open":          "verifOsOpen",
 	"(*os.File).Close": "verifFileClose",
 	"(*os.File).Name":  "verifFileName",
